@@ -9,28 +9,32 @@ From Coq Require Import List ZArith NArith Bool Arith String.
 From Verif Require Import Model.Process Model.Memo Gen.C08MemoTable Proofs.ProcessProofs Proofs.MemoProofs.
 Import ListNotations.
 
-(* RESTORE, current client (restore in `finally`): after EVERY request - served from the cache, run successfully,
-   or failed - cwd and argv are what they were before it; for every history and every starting state. *)
+(* RESTORE, current GEOPHIRES client (restore in `finally`) and the HIP-RA-X / HIP-RA clients: after EVERY request -
+   served from the cache, run successfully, or failed - cwd and argv are what they were before it; for every
+   history, every starting state, any path resolution. *)
 Theorem C08_restore :
-  forall (C R : Type) (run : C -> option R) (hash : nat -> Z) (K : Type) (keq : K -> K -> bool) (keyof : nat -> option C -> K) (ops : list (op C)) (st : state C R K),
-  Forall (fun e => is_get (eop e) = true ->
+  forall (C R : Type) (run : C -> option R) (hash : nat -> Z) (resolve : dir -> nat -> nat) (runh : nat -> C -> option R)
+         (K : Type) (keq : K -> K -> bool) (keyof : nat -> option C -> K) (ops : list (op C)) (st : state C R K),
+  Forall (fun e => is_client_run C (eop e) = true ->
                    cwd (after e) = cwd (before e) /\ argv (after e) = argv (before e))
-         (trace C R run hash K keq keyof true st ops).
+         (trace C R run hash resolve runh K keq keyof true st ops).
 Proof. exact trace_restore. Qed.
 Print Assumptions C08_restore.
 
 (* hence a whole history of requests, file edits and new clients ends where it started *)
 Theorem C08_restore_history :
-  forall (C R : Type) (run : C -> option R) (hash : nat -> Z) (K : Type) (keq : K -> K -> bool) (keyof : nat -> option C -> K) (ops : list (op C)) (st : state C R K),
+  forall (C R : Type) (run : C -> option R) (hash : nat -> Z) (resolve : dir -> nat -> nat) (runh : nat -> C -> option R)
+         (K : Type) (keq : K -> K -> bool) (keyof : nat -> option C -> K) (ops : list (op C)) (st : state C R K),
   forallb (only_runs_and_files C) ops = true ->
-  cwd (final C R run hash K keq keyof true st ops) = cwd st /\ argv (final C R run hash K keq keyof true st ops) = argv st.
+  cwd (final C R run hash resolve runh K keq keyof true st ops) = cwd st
+  /\ argv (final C R run hash resolve runh K keq keyof true st ops) = argv st.
 Proof. exact final_restore. Qed.
 Print Assumptions C08_restore_history.
 
 (* The client of the PINNED tree (restore only after a successful run) refutes the clause: one failing request
    leaves the caller in the source directory with sys.argv = ['', <input>, <output>]. *)
 Theorem C08_restore_pinned_refuted :
-  exists e, In e (ptrace [0] false (DUser 0) [AUser 0; AUser 1] [NewClient true; Get 0 7])
+  exists e, In e (ptrace (plain_cfg [0]) false (DUser 0) [AUser 0; AUser 1] [NewClient true; Get 0 7])
             /\ is_get (eop e) = true
             /\ cwd (after e) = DSrc /\ cwd (before e) = DUser 0
             /\ argv (after e) = [AEmpty; AIn 7; AOut 7%Z] /\ argv (before e) = [AUser 0; AUser 1].
@@ -39,27 +43,38 @@ Print Assumptions C08_restore_pinned_refuted.
 
 (* what the pinned client does guarantee: restore after every request that does not raise *)
 Theorem C08_restore_pinned_partial :
-  forall (C R : Type) (run : C -> option R) (hash : nat -> Z) (K : Type) (keq : K -> K -> bool) (keyof : nat -> option C -> K) (ops : list (op C)) (st : state C R K),
+  forall (C R : Type) (run : C -> option R) (hash : nat -> Z) (resolve : dir -> nat -> nat) (runh : nat -> C -> option R)
+         (K : Type) (keq : K -> K -> bool) (keyof : nat -> option C -> K) (ops : list (op C)) (st : state C R K),
   Forall (fun e => is_get (eop e) = true -> eout e <> Raised ->
                    cwd (after e) = cwd (before e) /\ argv (after e) = argv (before e))
-         (trace C R run hash K keq keyof false st ops).
+         (trace C R run hash resolve runh K keq keyof false st ops).
 Proof. exact trace_restore_pinned_partial. Qed.
 Print Assumptions C08_restore_pinned_partial.
+
+(* HIP-RA-X / HIP-RA clients (no cache, restore in `finally`): a request leaves the WHOLE state as it was *)
+Theorem C08_hip_frame :
+  forall (C R : Type) (run : C -> option R) (hash : nat -> Z) (resolve : dir -> nat -> nat) (runh : nat -> C -> option R)
+         (K : Type) (keq : K -> K -> bool) (keyof : nat -> option C -> K) (fixed : bool) (ops : list (op C)) (st : state C R K),
+  Forall (fun e => forall k p, eop e = HipGet k p -> after e = before e) (trace C R run hash resolve runh K keq keyof fixed st ops).
+Proof. exact trace_hip_frame. Qed.
+Print Assumptions C08_hip_frame.
 
 (* command-line entry point (restore in `finally`): cwd is given back whether main() returns or raises, and the
    argument list it was started with is still in place *)
 Theorem C08_cli_restore :
-  forall (C R : Type) (run : C -> option R) (hash : nat -> Z) (K : Type) (keq : K -> K -> bool) (keyof : nat -> option C -> K) (fixed : bool) (ops : list (op C)) (st : state C R K),
+  forall (C R : Type) (run : C -> option R) (hash : nat -> Z) (resolve : dir -> nat -> nat) (runh : nat -> C -> option R)
+         (K : Type) (keq : K -> K -> bool) (keyof : nat -> option C -> K) (fixed : bool) (ops : list (op C)) (st : state C R K),
   Forall (fun e => forall p, eop e = Cli p ->
                    cwd (after e) = cwd (before e) /\ argv (after e) = [AUser 0; AIn p; AOut (hash p)])
-         (trace C R run hash K keq keyof fixed st ops).
+         (trace C R run hash resolve runh K keq keyof fixed st ops).
 Proof. exact trace_cli_restore. Qed.
 Print Assumptions C08_cli_restore.
 
 (* NO CONTAMINATION in the model: a request changes nothing but the cache of the client it went through *)
 Theorem C08_get_frame :
-  forall (C R : Type) (run : C -> option R) (hash : nat -> Z) (K : Type) (keq : K -> K -> bool) (keyof : nat -> option C -> K) (st : state C R K) (ci p : nat),
-  let st' := fst (client_get C R run hash K keq keyof true st ci p) in
+  forall (C R : Type) (run : C -> option R) (hash : nat -> Z) (resolve : dir -> nat -> nat)
+         (K : Type) (keq : K -> K -> bool) (keyof : nat -> option C -> K) (st : state C R K) (ci p : nat),
+  let st' := fst (client_get C R run hash resolve K keq keyof true st ci p) in
   cwd st' = cwd st /\ argv st' = argv st /\ files st' = files st
   /\ List.length (clients st') = List.length (clients st)
   /\ forall j, j <> ci -> nth_error (clients st') j = nth_error (clients st) j.
@@ -67,80 +82,121 @@ Proof. exact get_frame. Qed.
 Print Assumptions C08_get_frame.
 
 (* REFINEMENT clause "a client never returns a result computed from input content different from the request":
-   REFUTED by the path-keyed cache, for the pinned and the current client alike: write c0, request, write c1,
+   the request is the file its path names FOR THE CALLER at request time.
+   REFUTED (1) by the path-keyed cache, for the pinned and the current client alike: write c0, request, write c1,
    request again on the same caching client -> the run of c0 comes back although the file holds c1. *)
 Theorem C08_cache_refines_run_refuted :
   forall fixed, exists e p r h,
-    In e (ptrace [0; 1] fixed (DUser 0) [] [NewClient true; Write 0 0; Get 0 0; Write 0 1; Get 0 0])
+    In e (ptrace (plain_cfg [0; 1]) fixed (DUser 0) [] [NewClient true; Write 0 0; Get 0 0; Write 0 1; Get 0 0])
     /\ eop e = Get 0 p /\ eout e = Returned r h
     /\ expected nat nat (crun [0; 1]) (files (before e)) p = Some 1 /\ r = 0.
 Proof. exact cache_refines_refuted. Qed.
 Print Assumptions C08_cache_refines_run_refuted.
 
-(* ... and PROVED under the two hypotheses the cache needs: hash is injective on the requested paths [ps], and no
-   file is written or deleted while a caching client holds a result under its key.  Then, for every history and
-   both clients, every result returned (by a client or the command line) is the run of the content the
-   requested file has at request time. *)
+(* REFUTED (2) by relative request paths, even with caching off: GeophiresInputParameters keeps from_file_path as
+   given and main() chdirs to the source directory BEFORE opening it, so the name is looked up there: the caller in
+   directory 0 asks for name 100 (its file 60, content 0) and gets the run of the source directory's file 90
+   (content 1) - or a failure when no such file exists there. *)
+Theorem C08_relative_request_refuted :
+  forall fixed, exists e r h,
+    In e (ptrace rel_cfg fixed (DUser 0) [] [NewClient false; Write 60 0; Get 0 100])
+    /\ eop e = Get 0 100 /\ eout e = Returned r h
+    /\ expected nat nat (crun [0; 1]) (files (before e)) (cresolve (g_rt rel_cfg) (cwd (before e)) 100) = Some 0
+    /\ r = 1.
+Proof. exact relative_request_refuted. Qed.
+Print Assumptions C08_relative_request_refuted.
+
+(* ... and PROVED under the hypotheses the code needs: every request path names the same file for the caller and
+   for the program (true of absolute paths: C08_absolute_paths_resolve_same), hash is injective on the requested
+   paths [ps], and no file is written or deleted while a caching client holds a result under the key of a path
+   naming it.  Then, for every history and both clients, every result returned (by a GEOPHIRES client, a HIP-RA
+   client or the command line) is the run of the content the requested file has at request time. *)
 Theorem C08_cache_refines_run_partial :
-  forall (C R : Type) (run : C -> option R) (hash : nat -> Z) (ps : list nat) (fixed : bool),
+  forall (C R : Type) (run : C -> option R) (hash : nat -> Z) (resolve : dir -> nat -> nat) (runh : nat -> C -> option R) (ps : list nat) (fixed : bool),
   (forall p q, In p ps -> In q ps -> hash p = hash q -> p = q) ->
   forall (ops : list (op C)) (d : dir) (a : list arg) (f : fs C),
   (forall ci p, In (Get ci p) ops -> In p ps) ->
-  Forall (fun e => forall p, wpath C (eop e) = Some p ->
+  Forall (fun e => forall w, wpath C (eop e) = Some w -> forall p, resolve DSrc p = w ->
                    forall cl, In cl (clients (before e)) -> caching cl = true ->
                    cache_lookup Z.eqb (hash p) (cache cl) = None)
-         (trace C R run hash Z Z.eqb (path_key hash) fixed (init d a f) ops) ->
-  Forall (fun e => forall p r h, req_path C (eop e) = Some p -> eout e = Returned r h ->
-                   expected C R run (files (before e)) p = Some r)
-         (trace C R run hash Z Z.eqb (path_key hash) fixed (init d a f) ops).
+         (trace C R run hash resolve runh Z Z.eqb (path_key hash) fixed (init d a f) ops) ->
+  Forall (fun e => (forall ci p, eop e = Get ci p -> resolve (cwd (before e)) p = resolve DSrc p)
+                   /\ (forall k p, eop e = HipGet k p -> resolve (cwd (before e)) p = resolve (DPkg k) p))
+         (trace C R run hash resolve runh Z Z.eqb (path_key hash) fixed (init d a f) ops) ->
+  Forall (fun e => forall orc p r h, request C R run runh (eop e) = Some (orc, p) -> eout e = Returned r h ->
+                   expected_with C R orc (files (before e)) (resolve (cwd (before e)) p) = Some r)
+         (trace C R run hash resolve runh Z Z.eqb (path_key hash) fixed (init d a f) ops).
 Proof. exact trace_refines_init. Qed.
 Print Assumptions C08_cache_refines_run_partial.
 
-(* with caching off the clause holds with no hypothesis at all: any hash, files rewritten at will *)
+(* with caching off the clause needs only the path hypothesis: any hash, files rewritten at will *)
 Theorem C08_nocache_refines_run :
-  forall (C R : Type) (run : C -> option R) (hash : nat -> Z) (K : Type) (keq : K -> K -> bool) (keyof : nat -> option C -> K) (fixed : bool) (ops : list (op C)) (st : state C R K),
+  forall (C R : Type) (run : C -> option R) (hash : nat -> Z) (resolve : dir -> nat -> nat) (runh : nat -> C -> option R)
+         (K : Type) (keq : K -> K -> bool) (keyof : nat -> option C -> K) (fixed : bool) (ops : list (op C)) (st : state C R K),
   (forall cl, In cl (clients st) -> caching cl = false) ->
   (forall b, In (NewClient b) ops -> b = false) ->
-  Forall (fun e => forall p r h, req_path C (eop e) = Some p -> eout e = Returned r h ->
-                   expected C R run (files (before e)) p = Some r)
-         (trace C R run hash K keq keyof fixed st ops).
+  Forall (fun e => (forall ci p, eop e = Get ci p -> resolve (cwd (before e)) p = resolve DSrc p)
+                   /\ (forall k p, eop e = HipGet k p -> resolve (cwd (before e)) p = resolve (DPkg k) p))
+         (trace C R run hash resolve runh K keq keyof fixed st ops) ->
+  Forall (fun e => forall orc p r h, request C R run runh (eop e) = Some (orc, p) -> eout e = Returned r h ->
+                   expected_with C R orc (files (before e)) (resolve (cwd (before e)) p) = Some r)
+         (trace C R run hash resolve runh K keq keyof fixed st ops).
 Proof. exact trace_refines_nocache. Qed.
 Print Assumptions C08_nocache_refines_run.
 
-(* THE REPAIR: a cache whose key determines the run - e.g. the path hash TOGETHER WITH the content of the file at
-   request time - satisfies the clause for every history, with files rewritten at will and any hash *)
+(* absolute paths (resolve d p = p) satisfy the path hypothesis in every history *)
+Theorem C08_absolute_paths_resolve_same :
+  forall (C R : Type) (run : C -> option R) (hash : nat -> Z) (resolve : dir -> nat -> nat) (runh : nat -> C -> option R)
+         (K : Type) (keq : K -> K -> bool) (keyof : nat -> option C -> K) (fixed : bool),
+  (forall d p, resolve d p = p) -> forall (ops : list (op C)) (st : state C R K),
+  Forall (fun e => (forall ci p, eop e = Get ci p -> resolve (cwd (before e)) p = resolve DSrc p)
+                   /\ (forall k p, eop e = HipGet k p -> resolve (cwd (before e)) p = resolve (DPkg k) p))
+         (trace C R run hash resolve runh K keq keyof fixed st ops).
+Proof. exact absolute_resolves_same. Qed.
+Print Assumptions C08_absolute_paths_resolve_same.
+
+(* THE REPAIR of the cache: a key that determines the run - e.g. the path hash TOGETHER WITH the content of the
+   file at request time - satisfies the clause for every history, with files rewritten at will and any hash *)
 Theorem C08_sound_key_refines_run :
-  forall (C R : Type) (run : C -> option R) (hash : nat -> Z) (K : Type) (keq : K -> K -> bool) (keyof : nat -> option C -> K) (fixed : bool),
+  forall (C R : Type) (run : C -> option R) (hash : nat -> Z) (resolve : dir -> nat -> nat) (runh : nat -> C -> option R)
+         (K : Type) (keq : K -> K -> bool) (keyof : nat -> option C -> K) (fixed : bool),
   (forall p c p' c', keq (keyof p c) (keyof p' c') = true ->
                      match c with Some x => run x | None => None end = match c' with Some x => run x | None => None end) ->
   forall (ops : list (op C)) (d : dir) (a : list arg) (f : fs C),
-  Forall (fun e => forall p r h, req_path C (eop e) = Some p -> eout e = Returned r h ->
-                   expected C R run (files (before e)) p = Some r)
-         (trace C R run hash K keq keyof fixed (init d a f) ops).
+  Forall (fun e => (forall ci p, eop e = Get ci p -> resolve (cwd (before e)) p = resolve DSrc p)
+                   /\ (forall k p, eop e = HipGet k p -> resolve (cwd (before e)) p = resolve (DPkg k) p))
+         (trace C R run hash resolve runh K keq keyof fixed (init d a f) ops) ->
+  Forall (fun e => forall orc p r h, request C R run runh (eop e) = Some (orc, p) -> eout e = Returned r h ->
+                   expected_with C R orc (files (before e)) (resolve (cwd (before e)) p) = Some r)
+         (trace C R run hash resolve runh K keq keyof fixed (init d a f) ops).
 Proof. exact trace_refines_sound_key_init. Qed.
 Print Assumptions C08_sound_key_refines_run.
 
 Theorem C08_content_key_refines_run :
-  forall (C R : Type) (run : C -> option R) (hash : nat -> Z) (ceq : C -> C -> bool) (fixed : bool),
+  forall (C R : Type) (run : C -> option R) (hash : nat -> Z) (resolve : dir -> nat -> nat) (runh : nat -> C -> option R) (ceq : C -> C -> bool) (fixed : bool),
   (forall a b, ceq a b = true -> a = b) ->
   forall (ops : list (op C)) (d : dir) (a : list arg) (f : fs C),
-  Forall (fun e => forall p r h, req_path C (eop e) = Some p -> eout e = Returned r h ->
-                   expected C R run (files (before e)) p = Some r)
-         (trace C R run hash (Z * option C) (content_keq ceq) (content_key hash) fixed (init d a f) ops).
+  Forall (fun e => (forall ci p, eop e = Get ci p -> resolve (cwd (before e)) p = resolve DSrc p)
+                   /\ (forall k p, eop e = HipGet k p -> resolve (cwd (before e)) p = resolve (DPkg k) p))
+         (trace C R run hash resolve runh (Z * option C) (content_keq ceq) (content_key hash) fixed (init d a f) ops) ->
+  Forall (fun e => forall orc p r h, request C R run runh (eop e) = Some (orc, p) -> eout e = Returned r h ->
+                   expected_with C R orc (files (before e)) (resolve (cwd (before e)) p) = Some r)
+         (trace C R run hash resolve runh (Z * option C) (content_keq ceq) (content_key hash) fixed (init d a f) ops).
 Proof. exact trace_refines_content_key. Qed.
 Print Assumptions C08_content_key_refines_run.
 
-(* PURE FUNCTION OF THE INPUT: two requests, anywhere in any two safe histories (different lengths, clients,
-   working directories, argv, other files), whose files hold the same content return the same result. *)
+(* PURE FUNCTION OF THE INPUT: two requests to the same program, anywhere in any two safe histories (different
+   lengths, clients, working directories, argv, other files), whose files hold the same content return the same
+   result. *)
 Theorem C08_result_function_of_content :
-  forall (C R : Type) (run : C -> option R) (hash : nat -> Z) fixed1 fixed2 ps1 ps2 (st1 st2 : state C R Z) ops1 ops2
-         e1 e2 p1 p2 r1 r2 h1 h2,
-  safe_history C R run hash fixed1 ps1 st1 ops1 -> safe_history C R run hash fixed2 ps2 st2 ops2 ->
-  In e1 (trace C R run hash Z Z.eqb (path_key hash) fixed1 st1 ops1) ->
-  In e2 (trace C R run hash Z Z.eqb (path_key hash) fixed2 st2 ops2) ->
-  req_path C (eop e1) = Some p1 -> req_path C (eop e2) = Some p2 ->
+  forall (C R : Type) (run : C -> option R) (hash : nat -> Z) (resolve : dir -> nat -> nat) (runh : nat -> C -> option R) fixed1 fixed2 ps1 ps2 (st1 st2 : state C R Z) ops1 ops2
+         e1 e2 orc p1 p2 r1 r2 h1 h2,
+  safe_history C R run hash resolve runh fixed1 ps1 st1 ops1 -> safe_history C R run hash resolve runh fixed2 ps2 st2 ops2 ->
+  In e1 (trace C R run hash resolve runh Z Z.eqb (path_key hash) fixed1 st1 ops1) -> In e2 (trace C R run hash resolve runh Z Z.eqb (path_key hash) fixed2 st2 ops2) ->
+  request C R run runh (eop e1) = Some (orc, p1) -> request C R run runh (eop e2) = Some (orc, p2) ->
   eout e1 = Returned r1 h1 -> eout e2 = Returned r2 h2 ->
-  fs_lookup p1 (files (before e1)) = fs_lookup p2 (files (before e2)) ->
+  fs_lookup (resolve (cwd (before e1)) p1) (files (before e1))
+    = fs_lookup (resolve (cwd (before e2)) p2) (files (before e2)) ->
   r1 = r2.
 Proof. exact result_function_of_content. Qed.
 Print Assumptions C08_result_function_of_content.
@@ -170,9 +226,9 @@ Print Assumptions C08_memo_table_ok.
 
 (* the verdicts on the implementation's observations are computed by these checkers; they are sound *)
 Theorem C08_checkers_sound :
-  forall fixed okc d a ops os,
-  session_check fixed okc d a ops os = [] ->
-  steps_ok okc [] (ptrace okc fixed d a ops) os.
+  forall fixed g d a ops os,
+  session_check fixed g d a ops os = [] ->
+  steps_ok g (g_files g) (ptrace g fixed d a ops) os.
 Proof. exact session_check_sound. Qed.
 Print Assumptions C08_checkers_sound.
 
@@ -183,46 +239,63 @@ Proof. exact check_restore_step_sound. Qed.
 Print Assumptions C08_restore_checker_sound.
 
 Theorem C08_refines_checker_sound :
-  forall okc f o b p, check_refines_step okc f o b = true -> req_path nat o = Some p ->
-  (forall r h, o_out b = Returned r h -> expected nat nat (crun okc) f p = Some r)
-  /\ (o_out b = Raised -> expected nat nat (crun okc) f p = None).
+  forall g f o b orc p, check_refines_step g f o b = true -> request_of g o = Some (orc, p) ->
+  (forall r h, o_out b = Returned r h ->
+     expected_with nat nat orc f (cresolve (g_rt g) (o_cwd_before b) p) = Some r)
+  /\ (o_out b = Raised -> expected_with nat nat orc f (cresolve (g_rt g) (o_cwd_before b) p) = None).
 Proof. exact check_refines_step_sound. Qed.
 Print Assumptions C08_refines_checker_sound.
 
 (* ---------- non-vacuity ---------- *)
 
-(* a history with failing and successful requests on which the restore theorem speaks (3 requests) *)
+(* a history with failing and successful requests (GEOPHIRES and HIP-RA) on which the restore theorem speaks *)
 Example C08_restore_example :
-  List.length (filter (fun e => is_get (eop e))
-            (ptrace [0] true (DUser 3) [AUser 0] [NewClient true; Get 0 7; Write 1 0; Get 0 1; Get 0 1])) = 3.
-Proof. vm_compute. reflexivity. Qed.
+  let g := mkCfg [0] [(1, 2)] [] [] in
+  List.length (filter (fun e => is_client_run nat (eop e))
+            (ptrace g true (DUser 3) [AUser 0]
+               [NewClient true; Get 0 7; Write 1 0; Get 0 1; Get 0 1; Write 2 2; HipGet 1 2; HipGet 2 2])) = 5
+  /\ map (@eout nat nat Z) (ptrace g true (DUser 3) [AUser 0] [Write 2 2; HipGet 1 2; HipGet 2 2; HipGet 1 9])
+     = [Done; Returned (hipres 1 2) false; Raised; Raised].
+Proof. split; vm_compute; reflexivity. Qed.
 
 (* the hypotheses of the partial refinement theorem are satisfiable by a history that rewrites files (before they
-   are cached, and other files afterwards) and returns results *)
+   are cached, and other files afterwards), changes directory, and returns results *)
 Example C08_refines_example :
-  let ops := [NewClient true; Write 0 0; Write 0 1; Get 0 0; Write 1 0; Get 0 1; Get 0 0] in
+  let ops := [NewClient true; Write 0 0; Write 0 1; Get 0 0; Chdir (DUser 2); Write 1 0; Get 0 1; Get 0 0] in
+  let t := ptrace (plain_cfg [0; 1]) true DSrc [] ops in
   (forall p q, In p [0; 1] -> In q [0; 1] -> chash p = chash q -> p = q)
   /\ (forall ci p, In (Get ci p) ops -> In p [0; 1])
-  /\ Forall (fun e => forall p, wpath nat (eop e) = Some p ->
+  /\ Forall (fun e => forall w, wpath nat (eop e) = Some w -> forall p, cresolve [] DSrc p = w ->
                       forall cl, In cl (clients (before e)) -> caching cl = true ->
-                      cache_lookup Z.eqb (chash p) (cache cl) = None)
-            (ptrace [0; 1] true DSrc [] ops)
-  /\ map (@eout nat nat Z) (ptrace [0; 1] true DSrc [] ops)
-     = [Done; Done; Done; Returned 1 false; Done; Returned 0 false; Returned 1 true].
+                      cache_lookup Z.eqb (chash p) (cache cl) = None) t
+  /\ Forall (fun e => (forall ci p, eop e = Get ci p -> cresolve [] (cwd (before e)) p = cresolve [] DSrc p)
+                      /\ (forall k p, eop e = HipGet k p -> cresolve [] (cwd (before e)) p = cresolve [] (DPkg k) p)) t
+  /\ map (@eout nat nat Z) t = [Done; Done; Done; Returned 1 false; Done; Done; Returned 0 false; Returned 1 true].
 Proof.
-  simpl. split; [|split; [|split]].
+  simpl. split; [|split; [|split; [|split]]].
   - intros p q _ _ H. apply Nat2Z.inj. exact H.
   - intros ci p H. repeat (destruct H as [H|H]; [inversion H; subst; simpl; auto|]). destruct H.
-  - vm_compute. repeat constructor; intros p H; try discriminate; inversion H; subst;
-      intros cl Hcl; repeat (destruct Hcl as [Hcl|Hcl]; [subst cl; simpl; intros _; reflexivity|]); destruct Hcl.
+  - vm_compute. repeat (apply Forall_cons; [|]); try apply Forall_nil; intros w H; try discriminate H;
+      inversion H; subst; intros p Hp; subst; intros cl Hcl;
+      repeat (destruct Hcl as [Hcl|Hcl]; [subst cl; intros _; reflexivity|]); destruct Hcl.
+  - apply (absolute_resolves_same nat nat (crun [0; 1]) chash (cresolve []) (crunh []) Z Z.eqb (path_key chash) true).
+    reflexivity.
   - vm_compute. reflexivity.
 Qed.
+
+(* a relative name that the caller and the program resolve to the same file (the caller sits in the source
+   directory) satisfies the path hypothesis; from another directory it does not (C08_relative_request_refuted) *)
+Example C08_relative_example :
+  map (@eout nat nat Z) (ptrace rel_cfg true DSrc [] [NewClient false; Get 0 100; Chdir (DUser 0); Write 60 0; Get 0 100])
+  = [Done; Returned 1 false; Done; Done; Returned 1 false].
+Proof. vm_compute. reflexivity. Qed.
 
 (* the repaired (content-keyed) client on the stale witness: the second request runs the new content *)
 Example C08_content_key_example :
   (forall a b, Nat.eqb a b = true -> a = b)
   /\ map (@eout nat nat (Z * option nat))
-         (ctrace [0; 1] true (DUser 0) [] [NewClient true; Write 0 0; Get 0 0; Write 0 1; Get 0 0; Write 0 0; Get 0 0])
+         (ctrace (plain_cfg [0; 1]) true (DUser 0) []
+            [NewClient true; Write 0 0; Get 0 0; Write 0 1; Get 0 0; Write 0 0; Get 0 0])
      = [Done; Done; Returned 0 false; Done; Returned 1 false; Done; Returned 0 true].
 Proof. split; [intros a b H; now apply Nat.eqb_eq|vm_compute; reflexivity]. Qed.
 
@@ -248,7 +321,7 @@ Proof. split; vm_compute; reflexivity. Qed.
 
 (* the session checker accepts a faithful observation of the stale witness only with the STALE code at step 4 *)
 Example C08_checker_example :
-  session_check true [0; 1] (DUser 0) [AUser 0]
+  session_check true (plain_cfg [0; 1]) (DUser 0) [AUser 0]
     [NewClient true; Write 0 0; Get 0 0; Write 0 1; Get 0 0]
     [mkObs (DUser 0) [AUser 0] (DUser 0) [AUser 0] Done; mkObs (DUser 0) [AUser 0] (DUser 0) [AUser 0] Done;
      mkObs (DUser 0) [AUser 0] (DUser 0) [AUser 0] (Returned 0 false);
